@@ -1,0 +1,354 @@
+//! C16 area, `t` box: the real `Kademlia` event loop with DICTATED Kademlia keys (so that one k-bucket can be filled
+//! past its capacity) — the coordinator's calls into the routing table as a function of the event history
+//! (property C14 at coordinator level: a peer whose connection is open stays `Connected` in the table and is never
+//! displaced).
+//!
+//! Operations (after the `t` prefix; `<key>` = 64 hex digits):
+//!   new <key>                 fresh coordinator whose local key is <key>
+//!   peer <p> <key>            dictate the key of peer <p> (before its first use)
+//!   add <p> <naddrs>          `KademliaHandle::try_add_known_peer`
+//!   est <p> <0|1>             `ConnectionEstablished` (1 = dialer endpoint); `noop` if the connection is open
+//!   closed <p>                `ConnectionClosed`; `noop` without connection
+//!   dialfail <p> <naddrs>     `DialFailure` naming <naddrs> addresses
+//!   inbound <p>               the peer opens a substream and stays silent; `noop` without connection
+//!   table <p>…                routing-table entry of the named peers (`p=bucket.slot.conn` or `p=-`), `self.peers`
+//!   dump                      all non-empty buckets
+//! Every event operation answers with the k-bucket of the peer concerned, in the notation of the c14 box.
+
+use super::{
+    address, channel, mgr, peer, peer_index, pipe, ConfigBuilder, ConnectionHandle, ConnectionId, ConnectionType,
+    Direction, Endpoint, HashSet, InnerTransportEvent, InnerTransportManagerCommand, Kademlia, KademliaHandle,
+    Multiaddr, Permit, PipeCtl, ProtocolCodec, ProtocolCommand, ProtocolName, PublicAddresses, Receiver, Sender,
+    Substream, SubstreamId, SubstreamKeepAlive, SupportedTransport, TransportManagerHandle, TransportService,
+    KEEP_ALIVE_TIMEOUT,
+};
+use crate::{
+    protocol::libp2p::kademlia::routing_table::{verif_c14::verif_dump, RoutingTable},
+    verif::{clear_key_overrides, set_key_override, unhex},
+    PeerId,
+};
+
+use std::{
+    cell::RefCell,
+    collections::{BTreeMap, HashMap},
+};
+
+/// Highest peer index of the `t` box.
+const MAX_PEER: u64 = 200;
+
+type Dump = Vec<(usize, Vec<(PeerId, ConnectionType, bool)>)>;
+
+thread_local! {
+    static WATCH: RefCell<bool> = RefCell::new(false);
+    static TABLE: RefCell<(Dump, Vec<PeerId>)> = RefCell::new((Vec::new(), Vec::new()));
+}
+
+/// Is a `t` box alive on this thread?
+pub(super) fn watching() -> bool {
+    WATCH.with(|w| *w.borrow())
+}
+
+/// Hook (from `snapshot`): the coordinator is about to wait for the next event.
+pub(super) fn record<'a>(table: &RoutingTable, peers: impl Iterator<Item = &'a PeerId>) {
+    let peers = peers.copied().collect();
+    TABLE.with(|t| *t.borrow_mut() = (verif_dump(table), peers));
+}
+
+pub(super) fn reset() {
+    WATCH.with(|w| *w.borrow_mut() = false);
+    TABLE.with(|t| *t.borrow_mut() = (Vec::new(), Vec::new()));
+}
+
+struct Conn {
+    id: ConnectionId,
+    tx: Sender<ProtocolCommand>,
+    _rx: Receiver<ProtocolCommand>,
+}
+
+pub(super) struct TBox {
+    handle: KademliaHandle,
+    service_tx: Sender<InnerTransportEvent>,
+    _mgr_rx: Receiver<InnerTransportManagerCommand>,
+    mgr_peers: mgr::Peers,
+    protocol: ProtocolName,
+    codec: ProtocolCodec,
+    local: [u8; 32],
+    keys: HashMap<u64, [u8; 32]>,
+    conns: BTreeMap<u64, Conn>,
+    next_conn: usize,
+    inbounds: Vec<PipeCtl>,
+}
+
+fn key_bytes(hex: &str) -> Option<[u8; 32]> {
+    if hex.len() != 64 || !hex.bytes().all(|b| b.is_ascii_hexdigit()) {
+        return None;
+    }
+    let mut out = [0u8; 32];
+    out.copy_from_slice(&unhex(hex));
+    Some(out)
+}
+
+fn conn_char(c: ConnectionType) -> char {
+    match c {
+        ConnectionType::NotConnected => 'n',
+        ConnectionType::Connected => 'c',
+        ConnectionType::CanConnect => 'k',
+        ConnectionType::CannotConnect => 'x',
+    }
+}
+
+fn show_peer(p: &PeerId) -> String {
+    peer_index(p).map_or_else(|| "j".to_string(), |i| i.to_string())
+}
+
+fn addresses(p: u64, n: usize, udp: bool) -> Vec<Multiaddr> {
+    (0..n)
+        .map(|k| {
+            let a: Multiaddr =
+                format!("/ip4/10.{}.{}.{}/tcp/{}", (p >> 8) & 0xff, p & 0xff, k & 0xff, 30000 + (k >> 8))
+                    .parse()
+                    .expect("valid multiaddr");
+            if udp {
+                a.with(multiaddr::Protocol::Udp(9))
+            } else {
+                a
+            }
+        })
+        .collect()
+}
+
+impl TBox {
+    pub(super) async fn new(local: [u8; 32]) -> Self {
+        reset();
+        clear_key_overrides();
+        WATCH.with(|w| *w.borrow_mut() = true);
+        let local_peer = peer(0);
+        set_key_override(local_peer, local);
+        let (mgr_tx, mgr_rx) = channel(4096);
+        let mgr_peers = mgr::new_peers();
+        let mgr_handle = TransportManagerHandle::new(
+            local_peer,
+            mgr_peers.clone(),
+            mgr_tx,
+            HashSet::from([SupportedTransport::Tcp]),
+            Default::default(),
+            PublicAddresses::new(local_peer),
+        );
+        let (config, handle) = ConfigBuilder::new().build();
+        let protocol = config.protocol_names[0].clone();
+        let codec = config.codec.clone();
+        let (service, service_tx) = TransportService::new(
+            local_peer,
+            protocol.clone(),
+            Vec::new(),
+            Default::default(),
+            mgr_handle,
+            KEEP_ALIVE_TIMEOUT,
+            SubstreamKeepAlive::Yes,
+        );
+        let kademlia = Kademlia::new(service, config);
+        tokio::spawn(async move {
+            let _ = kademlia.run().await;
+        });
+        let mut this = Self {
+            handle,
+            service_tx,
+            _mgr_rx: mgr_rx,
+            mgr_peers,
+            protocol,
+            codec,
+            local,
+            keys: HashMap::new(),
+            conns: BTreeMap::new(),
+            next_conn: 0,
+            inbounds: Vec::new(),
+        };
+        this.quiesce().await;
+        this
+    }
+
+    async fn quiesce(&mut self) {
+        for _ in 0..12 {
+            tokio::task::yield_now().await;
+            // the user reads (and ignores) the handle's events
+            while let Some(Some(_)) = futures::FutureExt::now_or_never(futures::StreamExt::next(&mut self.handle)) {}
+        }
+    }
+
+    /// Index of the k-bucket of `p` (`None`: its key is the local key).
+    fn bucket_of(&self, p: u64) -> Option<usize> {
+        let key = self.keys.get(&p)?;
+        for (i, (a, b)) in self.local.iter().zip(key.iter()).enumerate() {
+            let x = a ^ b;
+            if x != 0 {
+                return Some(255 - (8 * i + x.leading_zeros() as usize));
+            }
+        }
+        None
+    }
+
+    fn show_bucket(index: usize) -> String {
+        TABLE.with(|t| {
+            let t = t.borrow();
+            let nodes: Vec<String> = t
+                .0
+                .iter()
+                .find(|(i, _)| *i == index)
+                .map(|(_, nodes)| {
+                    nodes
+                        .iter()
+                        .map(|(p, c, a)| format!("{}/{}/{}", show_peer(p), conn_char(*c), u8::from(*a)))
+                        .collect()
+                })
+                .unwrap_or_default();
+            format!("{index}:[{}]", nodes.join(","))
+        })
+    }
+
+    fn show_selected(&self, p: u64) -> String {
+        match self.bucket_of(p) {
+            None => "local".into(),
+            Some(i) => Self::show_bucket(i),
+        }
+    }
+
+    fn known(&self, p: &str) -> Option<u64> {
+        p.parse::<u64>().ok().filter(|p| (1..=MAX_PEER).contains(p) && self.keys.contains_key(p))
+    }
+
+    pub(super) async fn step(&mut self, t: &[&str]) -> Option<String> {
+        let out = match t {
+            ["peer", p, key] => {
+                let p = p.parse::<u64>().ok().filter(|p| (1..=MAX_PEER).contains(p) && !self.keys.contains_key(p))?;
+                let key = key_bytes(key)?;
+                set_key_override(peer(p), key);
+                self.keys.insert(p, key);
+                return Some("ok".into());
+            }
+            ["add", p, n] => {
+                let (p, n) = (self.known(p)?, n.parse::<usize>().ok().filter(|n| *n <= 4)?);
+                let _ = self.handle.try_add_known_peer(peer(p), addresses(p, n, false));
+                self.quiesce().await;
+                self.show_selected(p)
+            }
+            ["est", p, dialer] => {
+                let p = self.known(p)?;
+                let dialer = match *dialer {
+                    "1" => true,
+                    "0" => false,
+                    _ => return None,
+                };
+                if self.conns.contains_key(&p) {
+                    return Some("noop".into());
+                }
+                let (tx, rx) = channel(64);
+                let id = ConnectionId::from(self.next_conn);
+                self.next_conn += 1;
+                let sender = ConnectionHandle::new(id, tx.clone());
+                self.conns.insert(p, Conn { id, tx, _rx: rx });
+                mgr::set_view(&self.mgr_peers, peer(p), mgr::View::Connected);
+                let address: Multiaddr =
+                    format!("/ip4/10.99.{}.{}/tcp/7", (p >> 8) & 0xff, p & 0xff).parse().expect("multiaddr");
+                let endpoint = if dialer { Endpoint::dialer(address, id) } else { Endpoint::listener(address, id) };
+                let _ = self
+                    .service_tx
+                    .send(InnerTransportEvent::ConnectionEstablished {
+                        peer: peer(p),
+                        connection: id,
+                        endpoint,
+                        sender,
+                    })
+                    .await;
+                self.quiesce().await;
+                self.show_selected(p)
+            }
+            ["closed", p] => {
+                let p = self.known(p)?;
+                let Some(conn) = self.conns.remove(&p) else {
+                    return Some("noop".into());
+                };
+                mgr::set_view(&self.mgr_peers, peer(p), mgr::View::Disconnected);
+                let _ = self
+                    .service_tx
+                    .send(InnerTransportEvent::ConnectionClosed {
+                        peer: peer(p),
+                        connection: conn.id,
+                    })
+                    .await;
+                self.quiesce().await;
+                self.show_selected(p)
+            }
+            ["dialfail", p, n] => {
+                let (p, n) = (self.known(p)?, n.parse::<usize>().ok().filter(|n| *n <= 4)?);
+                let _ = self
+                    .service_tx
+                    .send(InnerTransportEvent::DialFailure {
+                        peer: peer(p),
+                        addresses: addresses(p, n, true),
+                    })
+                    .await;
+                self.quiesce().await;
+                self.show_selected(p)
+            }
+            ["inbound", p] => {
+                let p = self.known(p)?;
+                let Some(conn) = self.conns.get(&p) else {
+                    return Some("noop".into());
+                };
+                let (end, ctl) = pipe(1 << 16);
+                let k = self.inbounds.len();
+                let substream =
+                    Substream::new_verif(peer(p), SubstreamId::from(1_000_000 + k), Box::new(end), self.codec.clone());
+                let _ = self
+                    .service_tx
+                    .send(InnerTransportEvent::SubstreamOpened {
+                        peer: peer(p),
+                        protocol: self.protocol.clone(),
+                        fallback: None,
+                        direction: Direction::Inbound,
+                        connection_id: conn.id,
+                        substream,
+                        opening_permit: Permit::new(conn.tx.clone()),
+                    })
+                    .await;
+                self.inbounds.push(ctl);
+                self.quiesce().await;
+                self.show_selected(p)
+            }
+            ["table", peers @ ..] if !peers.is_empty() => {
+                let peers: Vec<u64> = peers.iter().map(|p| self.known(p)).collect::<Option<_>>()?;
+                TABLE.with(|t| {
+                    let t = t.borrow();
+                    let mut items: Vec<String> = peers
+                        .iter()
+                        .map(|p| {
+                            let id = peer(*p);
+                            for (b, nodes) in t.0.iter() {
+                                if let Some(s) = nodes.iter().position(|(q, _, _)| *q == id) {
+                                    return format!("{p}={b}.{s}.{}", conn_char(nodes[s].1));
+                                }
+                            }
+                            format!("{p}=-")
+                        })
+                        .collect();
+                    let mut members: Vec<u64> = t.1.iter().filter_map(peer_index).collect();
+                    members.sort();
+                    items.push(format!(
+                        "P[{}]",
+                        members.iter().map(|m| m.to_string()).collect::<Vec<_>>().join(",")
+                    ));
+                    items.join(" ")
+                })
+            }
+            ["dump"] => TABLE.with(|t| {
+                let t = t.borrow();
+                let mut idx: Vec<usize> = t.0.iter().map(|(i, _)| *i).collect();
+                idx.sort();
+                idx.iter().map(|i| Self::show_bucket(*i)).collect::<Vec<_>>().join(";")
+            }),
+            _ => return None,
+        };
+        let _ = address; // (same address scheme helpers as the main box; unused here)
+        Some(out)
+    }
+}
